@@ -217,3 +217,39 @@ def archive_truthful(method: str, ks: int, kf: int, t: int, ke: int, prior: bool
             _check_member(run_dir, results[1], collecting, m1, um1 if method == "collect_paths" else None, out)
         kitpaths.cleanup(root)
     return "; ".join(out)
+
+
+# ------------------------------------------------------------------ O2 a collected blank line
+DATA_BLANK = "h1,h2\na,b\n\nc,d\ne,f\n"
+RECORDS_BLANK = [["h1", "h2"], ["a", "b"], [], ["c", "d"], ["e", "f"]]
+
+
+@ob(
+    "C09",
+    "O2-blank-line-collected",
+    pre=["{LO} <= t <= {HI}"],
+    post="_ == ''",
+    bound="one member over a 5-line file whose third line is blank, CsvPaths(skip_blank_lines=False), collect_by_line (the breadth-first "
+    "methods hand a blank line to the caller as []); match threshold t symbolic LO..HI: the lines handed to the caller, the fold and "
+    "data.csv read back agree (the blank line included when collected)",
+    outside="the serial methods (they reject an empty line before it can be collected); several blank lines",
+    encodes=["csvpath/util/line_spooler.py:CsvLineSpooler.append", "csvpath/csvpaths.py:CsvPaths.collect_by_line/next_by_line", "csvpath/managers/results/result.py:Result.append"],
+    tiers={"quick": {"timeout": 900, "K": {"LO": -1, "HI": 5}}},
+)
+def blank_line_collected(t: int) -> str:
+    kit.HOLD.update(symks=-1, symkf=-1, symt=t, symke=-1)
+    want = [r for i, r in enumerate(RECORDS_BLANK) if i > t]
+    with NoTracing():
+        root, cs = kitpaths.env({"g": ['~id:m~ $[*][ gt(line_number(), symt()) ]']}, policy="collect, print", data=DATA_BLANK)
+        cs.skip_blank_lines = False
+    got = [list(x) for x in cs.collect_by_line(filename="data", pathsname="g")]
+    out = []
+    with NoTracing():
+        if got != want:
+            out.append(f"the caller was handed {got}, expected {want}")
+        run = os.path.join("archive/g", sorted(os.listdir("archive/g"))[0])
+        back = _csv(os.path.join(run, "m", "data.csv"))
+        if back != want:
+            out.append(f"data.csv parses to {back}, the member collected {want}")
+        kitpaths.cleanup(root)
+    return "; ".join(out)
